@@ -304,7 +304,8 @@ CC_INPUTS = [
     ([0, 0, 0], [0] * 8),
     ([0x80000000, 3, 0xfffffff9], [0x80000000, 0x7fffffff, 0xff, 0x8000, 0xdeadbeef, 1, 0xffff0000, 0x00ff00ff]),
 ]
-RUNAWAY_BLOCKS = 60000
+STEP_LIMIT = {"quick": 30000, "thorough": 150000}      # executed instructions per run (approximate)
+_limit = [30000]
 
 
 def be_view(src):
@@ -403,11 +404,12 @@ def form_of(text):
 class CcRunner(object):
     """One program (code bytes for one arch) on a fresh python jitter; several input vectors."""
 
-    def __init__(self, arch, code):
+    def __init__(self, arch, code, maxline=None):
         from miasm.analysis.machine import Machine
         from miasm.core.locationdb import LocationDB
         from vlib import jitlab, ccorpus
         self.arch = arch
+        self.maxline = maxline
         self.lay = jitlab.layout(arch)
         self.t = ccorpus.TARGETS[arch]
         self.j = Machine(arch).jitter(LocationDB(), "python")
@@ -417,6 +419,8 @@ class CcRunner(object):
         self.j.vm.add_memory_page(lay["stack"], 3, b"\0" * lay["stack_size"], "stack")
         self.j.vm.add_memory_page(lay["data"], 3, b"\0" * 0x100, "data")
         self.j.jit.log_mn = True
+        if maxline:
+            self.j.jit.set_options(jit_maxline=maxline)
         self.base_regs = dict(self.j.cpu.get_gpreg())
 
         def stop(jj):
@@ -424,10 +428,11 @@ class CcRunner(object):
             return False
         self.j.add_breakpoint(lay["sentinel"], stop)
         self.nblocks = 0
+        self.buf = None
 
         def ecb(jj):
             self.nblocks += 1
-            if self.nblocks > RUNAWAY_BLOCKS:
+            if self.buf is not None and self.buf.tell() > 30 * _limit[0]:
                 jj.running = False
                 return "runaway"
             return True
@@ -457,7 +462,7 @@ class CcRunner(object):
         j.vm.set_exception(0)
         j.cpu.set_exception(0)
         self.nblocks = 0
-        buf = io.StringIO()
+        buf = self.buf = io.StringIO()
         out = {"kind": "ok"}
         with contextlib.redirect_stdout(buf):
             try:
@@ -534,7 +539,7 @@ def cc_judge_run(arch, out, exp):
             op = ":" + m.group(1)
         return "error", "emul-error:%s@%s%s" % (out["exc"], out["where"], op), out["msg"]
     if out["kind"] == "runaway":
-        return "fail", "runaway", "no return after %d translated-block executions (the native run returns)" % RUNAWAY_BLOCKS
+        return "steplimit", None, ""
     if out["kind"] == "jitexc":
         return "fail", "jitter-exception", "JitterException flags 0x%x at pc=0x%x" % (out["flags"], out["pc"])
     eret, earr = exp
@@ -593,6 +598,21 @@ def cc_explain(ctx, case, out, status, resource, detail):
                                                           case["args"][2], ",".join("0x%x" % x for x in case["arr"]))
     src = case["src"].replace("{f}", "f")
     trace = out["trace"]
+    funcs = [(case["tag"], case["src"])]
+    from vlib import ccorpus
+    nat = ctx.native(funcs, ccorpus.TARGETS[arch]["be"])
+    # step 1: does the failure depend on how the code is cut into translated blocks (and on state left by earlier
+    # runs of the same jitter) rather than on instruction semantics?  Fresh jitter, blocks never cut by jit_maxline.
+    code = ctx.compile(arch, opt, funcs)[0]
+    exp = nat.call(0, case["args"], case["arr"])
+    if code is not None and exp is not None and not (status == "error" and not trace):
+        o2 = CcRunner(arch, code, maxline=100000).run(case["args"], case["arr"])
+        if cc_judge_run(arch, o2, exp)[0] == "pass":
+            bucket = "%s|cc|jitter:block-partition|%s" % (arch, resource.split(":")[0])
+            return bucket, ("%s: %s; %d instructions executed; the same bytes and inputs give the native result on a "
+                            "fresh jitter with jit_maxline=100000 (no block cut): the failure depends on block "
+                            "partitioning / state kept between runs, not on an instruction's semantics -- C: %s"
+                            % (head, detail, len(trace), src))
     if status == "error":
         at = "lift"
         if trace and ("symbexec" in out["where"] or "expression" in out["where"] or "jitcore_python" in out["where"]):
@@ -605,9 +625,6 @@ def cc_explain(ctx, case, out, status, resource, detail):
         mn, f = form_of(txt)
         forms.setdefault(f, mn)
     passed = set()
-    funcs = [(case["tag"], case["src"])]
-    from vlib import ccorpus
-    nat = ctx.native(funcs, ccorpus.TARGETS[arch]["be"])
     for o in OPTS:
         code = ctx.compile(arch, o, funcs)[0]
         if code is None:
@@ -627,7 +644,7 @@ def cc_explain(ctx, case, out, status, resource, detail):
     suspects = [(f, mn) for f, mn in forms.items() if f not in passed]
     mns = sorted(set(mn for _f, mn in suspects))
     if not mns:
-        who = "func:%s" % case["tag"].split("_")[0]
+        who = "func:%s" % ("generated" if re.match(r"gen\d", case["tag"]) else case["tag"])
     elif len(mns) <= 3:
         who = "+".join(mns)
     else:
@@ -671,7 +688,8 @@ class C19(Check):
     def run_cc(self, res, tier, seed, shard, nshards):
         from vlib import ccorpus
         units, funcs_all, parts = cc_plan(tier)
-        mine = [u for i, u in enumerate(units) if i % nshards == shard]
+        _limit[0] = STEP_LIMIT[tier]
+        mine =[u for i, u in enumerate(units) if i % nshards == shard]
         only = os.environ.get("C19_ONLY")
         if only:
             mine = [u for u in mine if re.fullmatch(only.split(":")[0], u[0])]
@@ -725,6 +743,9 @@ class C19(Check):
                     continue
                 out = runner.run(args, arr)
                 status, resource, detail = cc_judge_run(arch, out, exp)
+                if status == "steplimit":
+                    res.dropped["cc: run stopped at the step limit (inconclusive, not a verdict)"] += 1
+                    continue
                 if status == "unsupported":
                     mn = cc_unsupported_text(arch, code, out["pc"]) if detail == "UNK_MNEMO" else detail
                     res.dropped["cc: program reaches an instruction miasm does not decode or lift (unsupported)"] += 1
@@ -751,6 +772,10 @@ class C19(Check):
                     break           # the same lifting / evaluation error would repeat for every input
         for mn, n in mncount.items():
             res.counters["cc-mn:%s:%s" % (arch, mn)] += n
+        if os.environ.get("C19_TIMING"):        # development aid only
+            import time
+            with open(os.environ["C19_TIMING"], "a") as f:
+                f.write("%s %s %s %s cpu=%.1f\n" % (arch, opt, tag, stratum, time.process_time()))
 
     # -- (im) ---------------------------------------------------------------------------------
     def run_im(self, res, tier, seed, shard, nshards):
@@ -761,6 +786,7 @@ class C19(Check):
             mine = [t for t in mine if re.fullmatch(only, t.arch + ":" + t.mn)]
         im_assemble(mine)
         dead = set()
+        self.errcount = collections.Counter()
         usable = []
         for t in mine:
             if not t.code:
@@ -797,6 +823,12 @@ class C19(Check):
         for bk, detail in fails:
             res.fail(bk, detail, {"kind": "im", "arch": t.arch, "text": t.text, "vals": [hex(v) for v in vals],
                                   "flagset": fidx, "_bucket": bk})
+            if "|emul-error:" in bk:
+                # a Python exception from the lifter / engine repeats for (nearly) every operand value and costs a
+                # fresh jitter each time: two witnesses per template are enough
+                self.errcount[t.key] += 1
+                if self.errcount[t.key] >= 2:
+                    dead.add(t.key)
 
     def replay(self, case):
         return None
